@@ -27,6 +27,11 @@ Mirrored Go code (`internal/target/queue/queue.go`, `framework/module/msgmetadat
   bounce pipeline with the original message's SMTPUTF8 flag.  It READS metadata and header: neither
   the metadata object, nor the header value (whose field slice is shared with every other holder
   of the value), nor the spool is written;
+* `dispatch`'s deferred handler (`dontRecover = false`, the production setting): a panic anywhere
+  below it (here: in the downstream target) -> `discardBroken(slot.ID)`: `os.Rename(<id>.meta,
+  <id>.meta_broken)` - `Step.panicked`; a leftover `<id>.meta.new` of an interrupted
+  `updateMetadataOnDisk` (any content) is not looked at by `readDiskQueue` (suffix `.meta` only)
+  and is overwritten by the next rewrite: a restart with such a leftover is `Step.restart`;
 * restart: `Close` + `readDiskQueue` of a new queue: every `<id>.meta` (whose `<id>.header` and
   `<id>.body` exist - of ANY length, an empty body file is a message with an empty body) is
   scheduled as `queueSlot{ID}`; also when `Commit` was answered by a queue whose time wheel was
@@ -139,7 +144,17 @@ inductive Ev
   | removed
   | report (r : Report)
   | reportFailed
+  /-- what the target had been handed when it panicked inside the attempt -/
+  | seenPanicked (s : Seen) (connPresent : Bool)
+  /-- `discardBroken`: `<id>.meta` renamed to `<id>.meta_broken`; `doc` = the record that file holds -/
+  | broke (doc : QMeta)
 deriving Repr
+
+/-- the call of the downstream target that panics: `Start`, the first `AddRcpt`, `Body` /
+`BodyNonAtomic` (the final `Abort` when nobody was accepted), the final `Commit` / `Abort` -/
+inductive Stage
+  | start | rcpt | body | fin
+deriving DecidableEq, Repr
 
 /-- The bounce side of one attempt (a bounce pipeline is configured):
 `failed to` = the recipients `tryDelivery` gives up in this attempt (`failedRcpts`);
@@ -154,6 +169,9 @@ structure Dsn where
 inductive Step
   | attempt (acc : List Str → Bool) (next : List Str → List Str) (dsn : Option Dsn)
   | restart
+  /-- an attempt in which the downstream target PANICS at `stage` (panic recovery active,
+  `dontRecover = false`): the deferred handler of `dispatch` calls `discardBroken` -/
+  | panicked (stage : Stage) (acc : List Str → Bool)
 
 structure St where
   /-- in-memory slot of the scheduled delivery (`queueSlot.Meta/Hdr`); none = read the spool -/
@@ -199,6 +217,24 @@ def attempt (vis : Vis) (co : Str → Str) (d : Disk) (m : QMeta) (h : Header)
     let doc := encodeMeta vis co { m with to := next m.to }
     (⟨none, some { d with metaFile := doc }, true⟩, ev :: emitDSN m h dsn ++ [.wrote doc])
 
+/-- what the target was handed up to and including the call that panics -/
+def seenUpTo (m : QMeta) (h : Header) (body : Bytes) (stage : Stage) (accepted : Bool) : Seen :=
+  let s := seenOf m h body accepted
+  match stage with
+  | .start => { s with to := [], content := none }
+  | .rcpt => { s with to := m.to.take 1, content := none }
+  | .body => s
+  | .fin => s
+
+/-- an attempt that ends in a panic of the target: `tryDelivery` does not return, nothing is
+re-scheduled, no metadata is written; `discardBroken(id)` RENAMES `<id>.meta` (the record the last
+`updateMetadataOnDisk` wrote - never the in-memory metadata of the interrupted attempt) to
+`<id>.meta_broken`.  Header and body files stay, but without `<id>.meta` no queue instance ever
+looks at them again: the live spool entry is gone. -/
+def panicAttempt (d : Disk) (m : QMeta) (h : Header) (stage : Stage) (acc : List Str → Bool) : St × List Ev :=
+  (⟨none, none, false⟩,
+    [.seenPanicked (seenUpTo m h d.bodyFile stage (acc m.to)) m.msgMeta.conn.isSome, .broke d.metaFile])
+
 def step (vis : Vis) (co : Str → Str) (s : St) : Step → St × List Ev
   | .restart =>
     match s.disk with
@@ -215,6 +251,17 @@ def step (vis : Vis) (co : Str → Str) (s : St) : Step → St × List Ev
         match readHeader d.hdrFile with
         | .error _ => ({ s with scheduled := false }, [.readError])
         | .ok h => attempt vis co d d.metaFile h acc next dsn
+  | .panicked stage acc =>
+    match s.disk with
+    | none => (s, [])
+    | some d =>
+      if !s.scheduled then (s, []) else
+      match s.slot with
+      | some (m, h) => panicAttempt d m h stage acc
+      | none =>
+        match readHeader d.hdrFile with
+        | .error _ => ({ s with scheduled := false }, [.readError])
+        | .ok h => panicAttempt d d.metaFile h stage acc
 
 def runFrom (vis : Vis) (co : Str → Str) : St → List Step → St × List Ev
   | s, [] => (s, [])
@@ -237,7 +284,14 @@ def seens : List Ev → List Seen
 def docs : List Ev → List QMeta
   | [] => []
   | .wrote d :: r => d :: docs r
+  | .broke d :: r => d :: docs r
   | _ :: r => docs r
+
+/-- what the target had been handed in the attempts it panicked in -/
+def panSeens : List Ev → List Seen
+  | [] => []
+  | .seenPanicked s _ :: r => s :: panSeens r
+  | _ :: r => panSeens r
 
 def reports : List Ev → List Report
   | [] => []
@@ -248,6 +302,7 @@ def attemptsOf : List Step → List ((List Str → Bool) × (List Str → List S
   | [] => []
   | .attempt a n _ :: r => (a, n) :: attemptsOf r
   | .restart :: r => attemptsOf r
+  | .panicked _ _ :: _ => []
 
 /-- The property's right-hand side, with no spool in it: every attempt is handed the accepted
 header, body, sender and options, and the recipients the previous attempt left pending. -/
